@@ -135,7 +135,9 @@ def gen_ops(rng, window, allow_stderr, max_total, text):
             ops.append(['y'])
 
     if rng.chance(60):
-        ops.append(['eof'])
+        # ... and maybe close right behind the EOF (what exit() does): the
+        # peer may still have data of this stream undelivered at that point
+        ops.append(['eof', 'close'] if rng.chance(30) else ['eof'])
 
     return ops
 
@@ -241,6 +243,21 @@ def valid_plan(plan, max_pkts=400):
 
             if ch['kind'] not in ('session', 'tcp'):
                 return False
+
+            # the encodings of the two endpoints follow from these: a
+            # channel cannot be text on one level and bytes on the other
+            if bool(ch['text']) != bool(plan.get('text') and
+                                        ch['kind'] == 'session'):
+                return False
+
+            if bool(ch.get('mixed')) != bool(plan.get('mixed') and
+                                             ch['text']):
+                return False
+
+            for ops in (ch['c2s'], ch['s2c']):
+                for op in ops:
+                    if op[0] == 'eof' and op[1:] not in ([], ['close']):
+                        return False
     except (KeyError, TypeError):
         return False
 
@@ -273,6 +290,7 @@ class Endpoint:
         self.pauses = list(ch['pause_c' if side == 'c' else 'pause_s'])
         self.sent = {0: 0, 1: 0}
         self.sent_eof = False
+        self.closed_early = False
         self.started = world.sim.loop.create_future()
         self.write_paused = False
         self.hold = None
@@ -575,6 +593,13 @@ class ChanRun:
                 except (OSError, asyncssh.Error) as exc:
                     ep.write_exc = exc
 
+                if len(op) > 1 and op[1] == 'close':
+                    # close() gives up what this side has not received yet:
+                    # the other direction is then only checked as a prefix
+                    ep.closed_early = True
+                    self.sim.probes['closed_behind_eof'] += 1
+                    chan.close()
+
                 break
             else:
                 await self.sim.pause('wr:' + ep.name)
@@ -719,6 +744,11 @@ class ChanRun:
                                            ('s', 'c', 's2c')):
                 wep = self.eps[(wside, i)]
                 rep = self.eps[(rside, i)]
+                want_complete = require_complete
+
+                if rep.closed_early:
+                    # the receiver closed its channel itself
+                    require_complete = False
 
                 for dt in (0, 1):
                     n = wep.sent[dt]
@@ -761,7 +791,8 @@ class ChanRun:
                         'chan %d %s: sender eof=%s receiver eof=%s' %
                         (i, tagdir, wep.sent_eof, rep.eof))
 
-                if not require_complete and rep.eof and not wep.sent_eof:
+                if not require_complete and rep.eof and not wep.sent_eof \
+                        and not rep.closed_early:
                     world.violation(
                         'eof-mismatch',
                         'chan %d %s: EOF reported but never sent' %
@@ -771,6 +802,8 @@ class ChanRun:
                     world.violation('after-eof',
                                     'chan %d %s: %r delivered after EOF' %
                                     (i, tagdir, rep.after_eof[:3]))
+
+                require_complete = want_complete
 
     def check_lost(self):
         for key, ep in sorted(self.eps.items()):
